@@ -83,6 +83,7 @@ func verifHarness_C04_onion() {
 	h := dig(2)  // global Use after the routes
 	nf := dig(3) // custom NotFound handlers
 	na := dig(2) // custom NotAllowed handler
+	rootg := dig(2) // a top-level group on the root prefix "/" with a Use inside
 
 	p := &verifProg{nexts: map[int]int{}}
 	r := New(HandleMethodNotAllowed)
@@ -124,6 +125,11 @@ func verifHarness_C04_onion() {
 		r.GET("/r4", m4)
 		exp["/g/r4"] = verifCat(gids, inner, m4id)
 
+		// a second Use of the group, after its nested group has returned
+		in2h, inner2 := p.mk(i)
+		r.Use(in2h...)
+		inner = verifCat(inner, inner2)
+
 		// sibling routes with their own middleware, registered after the group's chain has grown
 		m8, m8id := main()
 		r8h, r8 := p.mk(1)
@@ -151,6 +157,17 @@ func verifHarness_C04_onion() {
 	r.POST("/r5", m5)
 	exp["/r5"] = m5id
 
+	if rootg == 1 {
+		rgh, rg := p.mk(1)
+		r.Group("/", func() {
+			ruh, ru := p.mk(1)
+			r.Use(ruh...)
+			mq, mqid := main()
+			r.GET("/q1", mq)
+			exp["/q1"] = verifCat(rg, ru, mqid)
+		}, rgh...)
+	}
+
 	var nfIDs, naIDs []int
 	if nf > 0 {
 		var hs []HandlerFunc
@@ -165,6 +182,9 @@ func verifHarness_C04_onion() {
 	globals := verifCat(g1, g2, g3)
 
 	targets := []string{"/r0", "/g/r1", "/g/r2", "/g/h/r3", "/g/r4", "/r5", "/nowhere", "/r0", "/g/r6", "/g/r7", "/g/r8", "/g/r9"}
+	if rootg == 1 {
+		targets = append(targets, "/q1")
+	}
 	t := verifChoice("target", len(targets))
 	method := "GET"
 	var chain []int
@@ -182,16 +202,33 @@ func verifHarness_C04_onion() {
 	}
 	// behaviours: every handler calls Next() kd times; one deviant handler
 	p.nexts[0] = verifChoice("default", 3)
+	plain := p.nexts[0] == 1
 	if len(chain) > 0 {
 		dv := verifChoice("deviant", len(chain)+1)
 		if dv < len(chain) {
 			p.nexts[chain[dv]] = verifChoice("deviantNexts", 3)
+			plain = false
 		}
 	}
 	nexts := make([]int, len(chain))
 	for k, id := range chain {
 		nexts[k] = p.behaviour(id)
 	}
+	// earlier requests on the same router (and, through the pool, the same context) change nothing
+	// (explored for the plain behaviour only: every handler calls Next() once)
+	hist := 0
+	if plain {
+		hist = verifChoice("history", 3)
+	}
+	switch hist {
+	case 1:
+		r.ServeHTTP(verifNewWriter(), verifRequest("GET", "/nowhere"))
+	case 2:
+		r.ServeHTTP(verifNewWriter(), verifRequest("GET", "/nowhere"))
+		r.ServeHTTP(verifNewWriter(), verifRequest("POST", "/r5"))
+		r.ServeHTTP(verifNewWriter(), verifRequest("POST", "/r0"))
+	}
+	p.tr.ev = nil
 	rec := verifNewWriter()
 	r.ServeHTTP(rec, verifRequest(method, targets[t]))
 	want := verifOnion(chain, nexts)
